@@ -1717,6 +1717,14 @@ fn drop_stream_ref(inner: &Mutex<Inner>, key: store::Key) {
             while let Some(promise) = ppp.pop(stream.store_mut()) {
                 counts.transition(promise, |counts, stream| {
                     maybe_cancel(stream, actions, counts);
+
+                    // Nobody is going to read what the peer has already sent
+                    // on the promised stream either.
+                    if stream.ref_count == 0 {
+                        actions
+                            .recv
+                            .release_closed_capacity(stream, &mut actions.task, counts);
+                    }
                 });
             }
         }
